@@ -31,6 +31,8 @@ ASSUMPTIONS = [
 
 NODE_ALPHA = [None, ["stored"], ["inlined"], ["subst"], ["prefix", "t"], ["named", "FRESH"], ["user", "u"],
               ["stored+named"], ["stored+prefix"], ["subst+prefix"]]
+NODE_ALPHA_QUICK = [None, ["stored"], ["inlined"], ["subst"], ["named", "FRESH"], ["user", "u"],
+                    ["stored+named"], ["subst+prefix"]]
 INPUT_ALPHA = [None, ["user", "in"], ["stored"]]
 MAXDEV = {"quick": 2, "thorough": 3}
 
@@ -109,7 +111,7 @@ def run_case(case):  # noqa: C901
     outs = case["outs"]
     viol = []
     counters = collections.Counter()
-    base = progcheck.run_c_program(outs, valuations=["ramp", "edge"], blame=False)
+    base = progcheck.run_c_program(outs, valuations=["ramp", "edge", "wide"], blame=False)
     if base["outcome"] != "ok":
         return {"key": outs, "nontrivial": False, "outcome": "baseline:" + base["outcome"].split(":")[0],
                 "violations": []}
@@ -129,13 +131,25 @@ def run_case(case):  # noqa: C901
     max_dev = (MAXDEV.get(tier, 2) + 1) if ninner <= 1 else MAXDEV.get(tier, 2)
     fresh = [0]
 
+    node_alpha = NODE_ALPHA_QUICK if tier == "quick" else NODE_ALPHA
+
     def driver(ch):
         assignment = []
+        produced = set()
 
         def on_node(t, ary):
+            r = _on_node(t, ary)
+            produced.add(id(r))
+            return r
+
+        def _on_node(t, ary):
             if not isinstance(ary, pt.Array):
                 return ary
-            alpha = INPUT_ALPHA if is_input_term(t) else NODE_ALPHA
+            if id(ary) in produced:
+                # the API returned an operand unchanged (roll by 0, identity transpose, +x):
+                # this site is not a node of its own
+                return ary
+            alpha = INPUT_ALPHA if is_input_term(t) else node_alpha
             c = ch.choose(len(alpha), f"{t[0]}", cost=1 if not is_input_term(t) else 2)
             spec = alpha[c]
             if spec is not None:
@@ -163,7 +177,7 @@ def run_case(case):  # noqa: C901
                     assignment.append((t[0], "redn-tag"))
             return ary
         fresh[0] = 0
-        res = progcheck.run_c_program(outs, on_node=on_node, valuations=["ramp", "edge"], blame=False)
+        res = progcheck.run_c_program(outs, on_node=on_node, valuations=["ramp", "edge", "wide"], blame=False)
         return assignment, res
 
     nexec = 0
@@ -201,8 +215,10 @@ def run_case(case):  # noqa: C901
                     same = np.array_equal(b[n], got[n])
                     bad = None if same else f"got {got[n].ravel()[:8]} untagged {b[n].ravel()[:8]}"
                 else:
+                    # same program, same arithmetic: only a few ulps of the *result* dtype are allowed
+                    # between implementation strategies
                     bad = values.compare(got[n], b[n], scale=float(np.nanmax(np.abs(b[n]))) if b[n].size else 1.0,
-                                         nred=8, min_eps=float(np.finfo(np.float32).eps) if _has_f32(outs) else 0.0)
+                                         nred=8)
                 if bad:
                     viol.append({"sig": {"kind": "tag-changes-value",
                                          "tags": sorted({a[1][0] if isinstance(a[1], list) else a[1] for a in assignment})},
